@@ -229,6 +229,7 @@ fn codec_part(rep: &Arc<Reporter>, args: &Args) {
         let mut rng = Rng::derive(seed, 0xc08, shard as u64);
         let hs = heads();
         let mut job = 0usize;
+        let mut samples: Vec<Value> = vec![];
         for head in &hs {
             let len = head.bytes.len();
             let baseline = rt.block_on(codec_case(&ctx, head, &[], Duration::ZERO, false));
@@ -282,6 +283,9 @@ fn codec_part(rep: &Arc<Reporter>, args: &Args) {
                 local.evals += 1;
                 local.distinct.push(common::fnv(format!("{}|{:?}|{}", head.kind, cuts, gap_ms).as_bytes()));
                 local.tally(&format!("codec segmentation cuts={}", cuts.len().min(4)), 1);
+                if samples.len() < 2 && cuts.len() == 2 && job % 1000 < 16 {
+                    samples.push(json!({"head": head.kind, "cuts": cuts, "gap_ms": gap_ms, "listen_returned": format!("{:?}", out.seen).chars().take(200).collect::<String>(), "bytes_pulled": out.pulled}));
+                }
                 judge_codec(head, &cuts, gap_ms, &baseline.seen, &out, &mut local, &mut bad);
             }
             // truncated head followed by EOF: must end, not spin
@@ -301,10 +305,11 @@ fn codec_part(rep: &Arc<Reporter>, args: &Args) {
                 }
             }
         }
-        (local, bad)
+        (local, bad, samples)
     });
-    for (local, bad) in results {
+    for (local, bad, samples) in results {
         for (s, d) in bad { rep.violation(&s, d); }
+        for s in samples { rep.sample(s); }
         local.merge_into(rep);
     }
 }
@@ -389,6 +394,7 @@ fn tunnel_part(rep: &Arc<Reporter>, args: &Args) {
                             rep.violation("download bytes at the client differ from what the peer sent", witness(format!("client got {} of {} bytes", body.len(), payload.len())));
                         } else {
                             rep.tally("tunnel: 200 + byte-exact echo", 1);
+                            if i % 50 == 0 { rep.sample(witness("200 + byte-exact echo both ways".into())); }
                         }
                         if parse_h1_head(body).map(|x| x.is_some()).unwrap_or(false) && plen == 0 {
                             rep.violation("more than one response head on one HTTP/1.1 request", witness(String::new()));
